@@ -47,6 +47,44 @@ struct md_s {
 	unsigned int d;
 };
 
+#if defined ECHSE_VERIF
+/* vocabulary of the in-place loop contracts (read by /verif only) */
+# include "spec_cal.h"
+# include "spec_view.h"
+# include "spec_instant.h"
+/* ghost witness indices into the output array (chosen by the harness) */
+extern size_t verif_j, verif_k;
+# define VERIF_KEY(y, m, d, H, M, S)	\
+	(((uint64_t)(y) << 40U) | ((uint64_t)(m) << 32U) | ((uint64_t)(d) << 24U) | \
+	 ((uint64_t)(H) << 16U) | ((uint64_t)(M) << 8U) | (uint64_t)(S))
+# define VERIF_IKEY(i)	VERIF_KEY((i).y, (i).m, (i).d, (i).H, (i).M, (i).S)
+/* where a filler starts: the proto instant, midnight for an all-day one */
+# define VERIF_PROTO_KEY(p)	\
+	((p).H == 0xffU ? VERIF_KEY((p).y, (p).m, (p).d, 0U, 0U, 0U) : VERIF_IKEY(p))
+/* the cursor (y,m,d,H,M,S) of a sub-daily filler is a real date-time and the
+ * helper variables track it */
+# define VERIF_CURSOR_OK(y, m, d, H, M, S, w, maxd)	\
+	(1U <= (m) && (m) <= 12U && 1U <= (d) && (d) <= (maxd) && \
+	 (maxd) == (unsigned int)S_MDAYS(y, m) && 1U <= (w) && (w) <= 7U && \
+	 (H) < 24U && (M) < 60U && (S) < 60U && (y) <= 2200U)
+/* output so far is strictly increasing (witness pair), everything emitted
+ * precedes the cursor */
+/* facts about a written output slot at a witness index i: a real date-time
+ * between DTSTART and UNTIL */
+# define VERIF_SLOT_OK(tgt, i, res, nti, proto, until)	\
+	(!((i) < (res)) || \
+	 (1U <= (tgt)[i].m && (tgt)[i].m <= 12U && \
+	  1U <= (tgt)[i].d && (tgt)[i].d <= (unsigned int)S_MDAYS((tgt)[i].y, (tgt)[i].m) && \
+	  (tgt)[i].H < 24U && (tgt)[i].M < 60U && (tgt)[i].S < 60U && \
+	  VERIF_PROTO_KEY(proto) <= VERIF_IKEY((tgt)[i]) && \
+	  !(IKEY(until) < IKEY((tgt)[i]))))
+# define VERIF_OUT_OK(tgt, res, nti, y, m, d, H, M, S)	\
+	((res) <= (nti) && \
+	 ((res) == 0U || VERIF_IKEY((tgt)[(res) - 1U]) < VERIF_KEY(y, m, d, H, M, S)) && \
+	 (!(verif_j + 1U < (res)) || VERIF_IKEY((tgt)[verif_j]) < VERIF_IKEY((tgt)[(res) - 1U])) && \
+	 (!(verif_j < verif_k && verif_k < (res)) || VERIF_IKEY((tgt)[verif_j]) < VERIF_IKEY((tgt)[verif_k])))
+#endif	/* ECHSE_VERIF */
+
 static const unsigned int mdays[] = {
 	0U, 31U, 28U, 31U, 30U, 31U, 30U, 31U, 31U, 30U, 31U, 30U, 31U,
 };
@@ -1993,7 +2031,13 @@ rrul_fill_Sly(echs_instant_t *restrict tgt, size_t nti, rrulsp_t rr)
 	/* set up the wday mask */
 	with (int tmp) {
 		for (bitint_iter_t dowi = 0UL;
-		     (tmp = bi447_next(&dowi, &rr->dow), dowi);) {
+		     (tmp = bi447_next(&dowi, &rr->dow), dowi);)
+#if defined ECHSE_VERIF
+		__CPROVER_assigns(dowi, tmp, wd_mask)
+		__CPROVER_loop_invariant(CUR_OK_447(&rr->dow, dowi) && dowi <= 1000U)
+		__CPROVER_decreases(1000 - (long)dowi)
+#endif	/* ECHSE_VERIF */
+		{
 			if (tmp >= (int)MON && tmp <= (int)SUN) {
 				wd_mask |= (uint8_t)(1U << (unsigned int)tmp);
 			} else {
@@ -2012,7 +2056,13 @@ rrul_fill_Sly(echs_instant_t *restrict tgt, size_t nti, rrulsp_t rr)
 	/* set up the month mask */
 	with (unsigned int tmp) {
 		for (bitint_iter_t moni = 0UL;
-		     (tmp = bui31_next(&moni, rr->mon), moni);) {
+		     (tmp = bui31_next(&moni, rr->mon), moni);)
+#if defined ECHSE_VERIF
+		__CPROVER_assigns(moni, tmp, m_mask)
+		__CPROVER_loop_invariant(CUR_OK_BUI31(moni, rr->mon) && moni <= 64U)
+		__CPROVER_decreases(64 - (long)moni)
+#endif	/* ECHSE_VERIF */
+		{
 			m_mask |= 1U << tmp;
 		}
 	}
@@ -2025,7 +2075,13 @@ rrul_fill_Sly(echs_instant_t *restrict tgt, size_t nti, rrulsp_t rr)
 	/* set up the days masks */
 	with (int tmp) {
 		for (bitint_iter_t domi = 0UL;
-		     (tmp = bi31_next(&domi, rr->dom), domi);) {
+		     (tmp = bi31_next(&domi, rr->dom), domi);)
+#if defined ECHSE_VERIF
+		__CPROVER_assigns(domi, tmp, posd_mask, negd_mask)
+		__CPROVER_loop_invariant(CUR_OK_BI31(domi, rr->dom) && domi <= 64U)
+		__CPROVER_decreases(64 - (long)domi)
+#endif	/* ECHSE_VERIF */
+		{
 			if (tmp > 0) {
 				posd_mask |= 1U << tmp;
 			} else if (tmp < 0) {
@@ -2043,7 +2099,13 @@ rrul_fill_Sly(echs_instant_t *restrict tgt, size_t nti, rrulsp_t rr)
 	/* set up the hour mask */
 	with (unsigned int tmp) {
 		for (bitint_iter_t Hi = 0UL;
-		     (tmp = bui31_next(&Hi, rr->H), Hi);) {
+		     (tmp = bui31_next(&Hi, rr->H), Hi);)
+#if defined ECHSE_VERIF
+		__CPROVER_assigns(Hi, tmp, H_mask)
+		__CPROVER_loop_invariant(CUR_OK_BUI31(Hi, rr->H) && Hi <= 64U)
+		__CPROVER_decreases(64 - (long)Hi)
+#endif	/* ECHSE_VERIF */
+		{
 			H_mask |= 1U << tmp;
 		}
 	}
@@ -2056,7 +2118,13 @@ rrul_fill_Sly(echs_instant_t *restrict tgt, size_t nti, rrulsp_t rr)
 	/* set up the minute mask */
 	with (unsigned int tmp) {
 		for (bitint_iter_t Mi = 0UL;
-		     (tmp = bui63_next(&Mi, rr->M), Mi);) {
+		     (tmp = bui63_next(&Mi, rr->M), Mi);)
+#if defined ECHSE_VERIF
+		__CPROVER_assigns(Mi, tmp, M_mask)
+		__CPROVER_loop_invariant(CUR_OK_BUI63(Mi, rr->M) && Mi <= 128U)
+		__CPROVER_decreases(128 - (long)Mi)
+#endif	/* ECHSE_VERIF */
+		{
 			M_mask |= 1ULL << tmp;
 		}
 	}
@@ -2069,7 +2137,13 @@ rrul_fill_Sly(echs_instant_t *restrict tgt, size_t nti, rrulsp_t rr)
 	/* set up the second mask */
 	with (unsigned int tmp) {
 		for (bitint_iter_t Si = 0UL;
-		     (tmp = bui63_next(&Si, rr->S), Si);) {
+		     (tmp = bui63_next(&Si, rr->S), Si);)
+#if defined ECHSE_VERIF
+		__CPROVER_assigns(Si, tmp, S_mask)
+		__CPROVER_loop_invariant(CUR_OK_BUI63(Si, rr->S) && Si <= 128U)
+		__CPROVER_decreases(128 - (long)Si)
+#endif	/* ECHSE_VERIF */
+		{
 			S_mask |= 1ULL << tmp;
 		}
 	}
@@ -2099,7 +2173,15 @@ rrul_fill_Sly(echs_instant_t *restrict tgt, size_t nti, rrulsp_t rr)
 					     if (w > SUN) {
 						     w = w % 7U ?: SUN;
 					     }
-					     while (d > maxd) {
+					     while (d > maxd)
+#if defined ECHSE_VERIF
+					     __CPROVER_assigns(y, m, d, maxd)
+					     __CPROVER_loop_invariant(
+						     1U <= m && m <= 12U && 1U <= d && d <= 100U && y <= 2200U && y + d <= 2200U &&
+						     maxd == (unsigned int)S_MDAYS(y, m))
+					     __CPROVER_decreases(d)
+#endif	/* ECHSE_VERIF */
+					     {
 						     d--, d %= maxd, d++;
 						     if (++m > 12U) {
 							     y++;
@@ -2110,7 +2192,18 @@ rrul_fill_Sly(echs_instant_t *restrict tgt, size_t nti, rrulsp_t rr)
 				     }
 			     }
 		     }
-	     })) {
+	     }))
+#if defined ECHSE_VERIF
+	__CPROVER_assigns(y, m, d, H, M, S, w, maxd, res, __CPROVER_object_upto(tgt, nti * sizeof(*tgt)))
+	__CPROVER_loop_invariant(
+		VERIF_CURSOR_OK(y, m, d, H, M, S, w, maxd) &&
+		VERIF_OUT_OK(tgt, res, nti, y, m, d, H, M, S) &&
+		VERIF_SLOT_OK(tgt, verif_j, res, nti, proto, rr->until) &&
+		VERIF_SLOT_OK(tgt, verif_k, res, nti, proto, rr->until) &&
+		VERIF_PROTO_KEY(proto) <= VERIF_KEY(y, m, d, H, M, S))
+	__CPROVER_decreases(2201 - (long)y, 12 - (long)m, 31 - (long)d, 23 - (long)H, 59 - (long)M, 59 - (long)S)
+#endif	/* ECHSE_VERIF */
+	{
 		/* we're subtractive, so check if the current ymd matches
 		 * if not, just continue and check the next candidate */
 		if (!(wd_mask & (1U << w))) {
